@@ -32,6 +32,13 @@ def gen_layer(rng, idx):
                 args.append('_k')
             inv[n] = {'args': args}
         d['inverses'] = inv
+    # explicit edge factories: `x = Function(f, 'a', '_p')` binds the user function's parameters to names given as strings
+    # (private names are parameters / constructor arguments of the layer exactly as in a signature)
+    for group in ('fields', 'params'):
+        for n, spec in sorted(d.get(group, {}).items()):
+            if spec.get('args') and not spec.get('kwbind') and not spec.get('combined') and rng.random() < 0.15:
+                spec['posbind'] = list(spec['args'])
+                spec['args'] = [f'u{i}' for i in range(len(spec['posbind']))]
     # the malformed stream (about one layer in six): a private name that nothing defines, two key arguments or a redefined `id`
     # in a Source, `__inherit__` together with `__exclude__`, a listed name that the layer defines itself, parameters that need
     # each other
@@ -60,6 +67,10 @@ def gen_layer(rng, idx):
 def model_desc(b, d):
     """the description the model is given: the Source's `ids` is an ordinary meta field computed by a function without arguments"""
     m = json.loads(json.dumps(d))
+    for group in ('fields', 'params'):
+        for spec in m.get(group, {}).values():
+            if spec.get('posbind'):
+                spec['args'] = spec.pop('posbind')        # the names the edge is bound to
     if d['k'] == 'apply':
         # `Apply(name=f, ...)` builds the container of a Transform that inherits everything and redefines `name` as f(name)
         return {'k': 'transform', 'cls': 'Apply', 'fields': {n: {'args': [n], 'f': f} for n, f in d['fns'].items()}, 'params': {},
